@@ -40,40 +40,43 @@ def resolve_axis(T, axis, lvl):
     return None
 
 
-def apply_at(T, vals, axis, fn, lvl=0, allow_record_at_axis=True):
+def apply_at(T, vals, axis, fn, lvl=0, through_records=False):
     """apply fn(T, vals, lvl) -> (T', vals') to every array found at absolute level `axis`.
     Returns (T', vals') for the whole structure."""
     abs_axis = resolve_axis(T, axis, lvl)
     if abs_axis is not None and abs_axis < lvl:
         raise ModelError("axis out of range")
     if abs_axis is not None and abs_axis == lvl:
-        return fn(T, vals, lvl)
+        if not (through_records and M.strip_option(T)[0] == "record"):
+            return fn(T, vals, lvl)
     ax = axis if abs_axis is None else abs_axis
     k = T[0]
     if k in ("list", "regular"):
         outs = []
         RT = None
         for v in vals:
-            rt, rv = apply_at(T[1], v, ax, fn, lvl + 1)
+            rt, rv = apply_at(T[1], v, ax, fn, lvl + 1, through_records)
             RT = rt
             outs.append(rv)
         if RT is None:
-            RT, _ = apply_at(T[1], [], ax, fn, lvl + 1)
+            RT, _ = apply_at(T[1], [], ax, fn, lvl + 1, through_records)
         return ([k, RT] + T[2:]) if k == "regular" else ["list", RT], outs
     if k == "option":
         present = [v for v in vals if v is not None]
-        RT, rv = apply_at(T[1], present, ax, fn, lvl)
+        RT, rv = apply_at(T[1], present, ax, fn, lvl, through_records)
         it = iter(rv)
         return M.option_of(RT), [None if v is None else next(it) for v in vals]
+    if k == "unknown":
+        raise Unsupported("axis below an array of unknown type")
     if k == "record":
         fields, istuple = T[1], T[2]
         if not fields:
-            raise ModelError("axis exceeds the depth of this array")
+            raise Unsupported("axis below a record without fields")
         cols = []
         rts = []
         for i, (nm, ft) in enumerate(fields):
             col = [v[i] if istuple else v[nm] for v in vals]
-            rt, rv = apply_at(ft, col, ax, fn, lvl)
+            rt, rv = apply_at(ft, col, ax, fn, lvl, through_records)
             rts.append([nm, rt])
             cols.append(rv)
         n = len(vals)
@@ -89,7 +92,7 @@ def apply_at(T, vals, axis, fn, lvl=0, allow_record_at_axis=True):
         which = [_member(T, v) for v in vals]
         for m, mt in enumerate(members):
             idx = [i for i, w in enumerate(which) if w == m]
-            rt, rv = apply_at(mt, [vals[i] for i in idx], ax, fn, lvl)
+            rt, rv = apply_at(mt, [vals[i] for i in idx], ax, fn, lvl, through_records)
             rts.append(rt)
             for i, r in zip(idx, rv):
                 out[i] = r
@@ -104,6 +107,11 @@ def _member(T, v):
 
 def _need_list(T):
     inner = M.strip_option(T)
+    if inner[0] == "union":
+        members = [M.strip_option(t) for t in inner[1]]
+        if all(t[0] in ("list", "regular") for t in members):
+            return ["list", M.union_of([t[1] for t in members])]
+        raise Unsupported("union of lists and non-lists at the axis")
     if inner[0] not in ("list", "regular"):
         raise ModelError("axis exceeds the depth of this array")
     return inner
@@ -124,7 +132,7 @@ def num(T, vals, axis):
 def _apply_parent(T, vals, axis, fn):
     """apply fn to the arrays whose *elements* are the lists addressed by axis, i.e. one level above `axis`
     (a branch of total depth d has absolute axis d + axis for negative axis; its parent is `axis - 1` either way)"""
-    return apply_at(T, vals, axis - 1, fn)
+    return apply_at(T, vals, axis - 1, fn, 0, True)
 
 
 def flatten(T, vals, axis):
@@ -132,12 +140,14 @@ def flatten(T, vals, axis):
         raise ModelError("axis=0 not allowed for flatten")
 
     def fn(T2, v2, lvl):
+        if M.strip_option(T2)[0] == "record":
+            raise ModelError("arrays of records cannot be flattened")
         inner = _need_list(T2)
         out = [y for e in v2 if e is not None for y in e]
         return inner[1], out
     # flatten removes level `axis`: the arrays at level axis-1 have their elements (lists) concatenated;
     # fn returns a *new element type and values* for that array
-    return _apply_parent(T, vals, axis, fn)
+    return apply_at(T, vals, axis - 1, fn)
 
 
 def localindex(T, vals, axis):
